@@ -227,6 +227,25 @@ func f3(w *World, r *Report) {
 			ok = len(a) == 8 && w.Canon(a[3]) == "p0.Tx.Gas" && w.Canon(a[4]) == "p0.GovHandler.GasPrice()"
 			res = extractOf(callValue(cs[0]), 0)
 		}
+		var deep *evmMsgSite
+		if !ok {
+			// the message ExecuteTrx reaches, in ExecuteTrx's own terms
+			if deep = w.evmMessageDeep(ex); deep != nil {
+				ok = deep.Args[3] == "p0.Tx.Gas" && deep.Args[4] == "p0.GovHandler.GasPrice()"
+				// the execution result: what the helper that applies the message hands back
+				for _, c := range CallsIn(ex) {
+					if call, isCall := c.(*ssa.Call); isCall {
+						if cal := call.Common().StaticCallee(); cal != nil && w.InModule(cal) {
+							for _, g := range w.withModuleCallees(cal, 2) {
+								if g == deep.Fn {
+									res = extractOf(call, 0)
+								}
+							}
+						}
+					}
+				}
+			}
+		}
 		r.Check(ok, "F-3", "ExecuteTrx:gas-and-price", "execVM receives the transaction's gas limit and the governance gas price", "execVM is not given (Tx.Gas, GovHandler.GasPrice())", fnSite(w, ex))
 		okU := false
 		for _, fs := range w.fieldStores(ex) {
@@ -235,8 +254,16 @@ func f3(w *World, r *Report) {
 			}
 		}
 		r.Check(okU, "F-3", "ExecuteTrx:GasUsed", "GasUsed is the execution result's UsedGas", "ctx.GasUsed is not set from the EVM execution result", fnSite(w, ex))
+		if ok && deep != nil {
+			r.Check(deep.Args[5] == "p0.Tx.Amount", "F-3", "execVM:passes-gas-price-amount", "gas limit, gas price and amount reach the message unchanged", "execVM alters gas limit, price or amount on the way to the message", site(w, deep.Call))
+			w.n4Deep = true
+		}
 	}
 	evf := needFn(r, "F-3", w, fref{"ctrlers/vm/evm", "EVMCtrler", "execVM"})
+	if w.n4Deep {
+		evf = nil
+		w.n4Deep = false
+	}
 	if evf != nil {
 		cs := w.callsTo(evf, fref{"ctrlers/vm/evm", "", "evmMessage"})
 		ok := len(cs) == 1
